@@ -15,4 +15,6 @@ CONSTANTS
   BugJsonAlias = FALSE
   BugEntryPointWritesTables = FALSE
   BugCopyDiffers = FALSE
+  BugMemoPublishedEarly = FALSE
+  BugCacheIgnoresContext = FALSE
 CHECK_DEADLOCK FALSE
